@@ -80,7 +80,7 @@ CHECKS = {
         "showing the guard matters). Tie: convert_to_cpm (exact stream / 1e-12 stream decided per row), CellByGeneMatrix constructor and random operation sequences, "
         "write_query_markers_to_h5 + is_data_ge_zero + AnnDataRowIterator + assemble_query_data vs prepare_query, plus paired real run_mapping runs (raw vs "
         "pre-normalised, scaling, gene permutation, extra genes, negative value rejected).",
-   note="After the third audit: the *_vote theorems are corollaries by construction (c07_same_votes_is_eq: same_votes m1 m2 <-> m1 = m2; said so); the bridge with content is c07_prepared_row_is_the_compared_row (lists and indices derived from the real cache: the row prepare_query hands over is, column for column, "
+   note="c07_float_sum_exact_every_bracketing (any binary tree of float32 additions over a row whose sum is <= 2^24 is exact: numpy's pairwise summation included). After the third audit: the *_vote theorems are corollaries by construction (c07_same_votes_is_eq: same_votes m1 m2 <-> m1 = m2; said so); the bridge with content is c07_prepared_row_is_the_compared_row (lists and indices derived from the real cache: the row prepare_query hands over is, column for column, "
         "the row the reference side of C18 is compared with). Domain: integer counts whose row sums (x k) are exact in the storage dtype (< 2^24 float32, < 2^53 float64): c07_float_sum_exact_below_2_24, c07_float_sum_order_matters; outside it the real code is generated and judged too: "
         "rounding-level change under scaling is allowed by the property, a permuted raw non-integer file that is not bitwise equal is the known finding F28. c07_guard_lost_by_downsample_cells (observation). Same-path histories (clean then negative file) are part of the tie. "
         "The theorems are about prepare_query (the per-parent query matrices); the bridge to the result is proved: c07_equal_profile_equal_vote / c07_equal_parent_matrix_equal_vote (equal rows on a parent's markers -> equal vote_record and decide_vote, generator state included) "
@@ -107,7 +107,7 @@ CHECKS = {
         "(every n_per), c11_worker_independent, c11_tables_total, c11_empty_direction_table (F17 repaired in /repo 90f7980), c11_mask_file_exact, c11_mask_file_strict_is_zero, c11_mask_route_sound, c11_mask_route_complete. Tie: correct_ttest / "
         "approx_correct_ttest / penetrance tests / score_differential_genes / _get_validity_mask on a dyadic grid where binary64 is exact, and both marker routes end to end "
         "on generated statistics files vs the extracted model.",
-   note="After the third audit: the from-stats theorems carry `off_threshold` (no rational score equals a threshold or floor: where one does, binary64 decides — qdiff = 7/10 is 0.7000000000000001 — counted per run under c11_threshold_hit_exactly on ~2700 enumerated count quadruples); "
+   note="F35 (int64 wrap of n**3 for clusters above 2^21 cells) found by auditing the model and fixed in /repo 0bfa522; c11_cells_in_int64_range_no_wrap, big-cluster tie against the exact rational formula; c11_composed_premises_and_recorded_gene (an oracle meeting the premises that records a gene). After the third audit: the from-stats theorems carry `off_threshold` (no rational score equals a threshold or floor: where one does, binary64 decides — qdiff = 7/10 is 0.7000000000000001 — counted per run under c11_threshold_hit_exactly on ~2700 enumerated count quadruples); "
         "variance, means and fold are float-faithful (Model/Welch.v `fl`: round-to-nearest-even to 53 bits in Z arithmetic; compared bit for bit with numpy on non-dyadic constants, negative float variances included); the p-value oracle is a function of the modelled statistic (t_cdf : tnu -> option Z, a table on the wire; "
         "c11_equal_statistic_equal_p, c11_nu_matters) and c11_sound_exact_welch_composed derives the skipped-gene premise from the boring premises; c11_welch_constant_gene + known finding F33 (a gene constant in both clusters with exactly-zero float variance is never a marker although maximally different; with a rounding residue it is). "
         "c11_boring_exact_p_ge / c11_boring_t_sound / _code rest on premises about scipy's Student CDF on [-boring_t, boring_t] (end points end_lo / end_hi per occurring nu, monotonicity, NaN convention) that the harness CHECKS on every (t, nu) that occurs "
@@ -136,7 +136,7 @@ CHECKS = {
         "c12_pair_order_irrelevant, c12_greedy_order_irrelevant, c12_behemoth_order_is_permutation, c12_thinning_sound. Tie: trace refinement — the gene sequence returned by "
         "select_marker_genes_v2 / _run_selection is replayed through the model (every step legal, finished exactly at the end; mutilated sequences must be rejected) and census, "
         "final utility array and statistics compared; select_all_markers / create_marker_gene_lookup_from_ref_list over workers 1..4 x behemoth cut-offs {0,1,1e9}; independent census.",
-   note="numpy's own rule is proved legal: c12_numpy_rule_is_legal / _meets_spec (+ _batch for every k) for every sorter satisfying is_argsort (checked on every np.argsort result the harness hands to the model; c12_an_argsort_exists); "
+   note="Composed: c12_numpy_pair_order_composed / c12_numpy_threshold_composed (for an is_argsort sorter both runs end WKDone with permuted chosen lists, same counts / flags / utility), c12_parent_run_has_pairs_batch (+ three by-construction lifts); the legality / spec theorems carry no_gene_both_ways and pairs <> [] (where Python raises AssertionError / ValueError: Examples); genes_at_a_time = 0 spins for ever in the real code (observed, outside the quantifier). numpy's own rule is proved legal: c12_numpy_rule_is_legal / _meets_spec (+ _batch for every k) for every sorter satisfying is_argsort (checked on every np.argsort result the harness hands to the model; c12_an_argsort_exists); "
         "pair-order, threshold and names theorems for every genes_at_a_time: c12_batch_pair_order_irrelevant, c12_batch_threshold_core / _irrelevant, c12_batch_selected_names_are_query_markers, c12_select_with_is_k1, c12_select_parent_is_k1 (tie tags 1264-1266, k in {2,3,5}). "
         "Every genes_at_a_time >= 1 (Model/SelectionK.v: argsort only when a slot was newly filled, k pops with nothing recomputed, breaks only between batches): c12_batch_one_is_step, c12_batch_no_duplicates, c12_batch_coverage, c12_batch_spec_holds, "
         "c12_batch_trace_legal (a batch has 1..k genes, each of positive and maximal utility; shorter than k only when nothing useful is left), c12_batch_invariant_preserved, c12_batch_terminates, c12_batch_iterations_bounded, "
@@ -177,7 +177,8 @@ CHECKS = {
         "and each ends as in its solo run). Tie: the four real stages run under strace -f in child interpreters; parsed traces decided by the extracted acceptor, the model's "
         "final file system compared with the observed listing; digests, listings and results compared with an undisturbed run; histories: success after success / failure / "
         "injected worker failure, stale files under every temporary-name pattern, obsm_key, concurrent pairs replayed as one interleaving, direct calls of the type-assignment stage with a shared results_output_path (stale buffers under every plausible name), runs without a scratch directory (system temp and working directory observed).",
-   note="Acceptor: Stat observations (refused on stale entries: code 12), a pre-existing declared output is never deleted (code 13, c19_preexisting_output_never_deleted), programs (functions from the observation history to the next op): c19_stale_independence_program, c19_program_run_is_accepted_trace, "
+   note="After the fourth audit: the tracker premise demands only that no path handed to the tracker is written by the environment (the query excepted when obsm_key stores results in it: life_premise_ow), evaluated on a first run, a second run into the same output paths and an obsm run per check (c19_tracker_premise_ow, c19_tracker_premise_inputs); "
+        "the probing programs make k further Stats before the probe (c19_real_probe_is_instance: k = 1, the lstat of the symlink fix). Acceptor: Stat observations (refused on stale entries: code 12), a pre-existing declared output is never deleted (code 13, c19_preexisting_output_never_deleted), programs (functions from the observation history to the next op): c19_stale_independence_program, c19_program_run_is_accepted_trace, "
         "c19_stale_independence_up_to_probes (fresh vs stale outputs: traces equal after erasing the probe ops). Tracker theorems hold relative to the set of paths the environment writes (no protocol assumed); c19_tracker_premise + tag 1954: the premise is evaluated on a recorded real run_mapping life on every run. "
         "F30 (probe through a dangling symlink) fixed in /repo ecb653f. FileTracker + mkstemp_clean + _clean_up are modelled as a state machine (Model/Tracker.v) with theorems over arbitrary op sequences of one tracker life: c19_tracker_inputs_untouched (+ _no_tmp_refuted: with tmp_dir=None the real_location IS the input), "
         "c19_tracker_scratch_empty, c19_tracker_outputs_only_where_requested, c19_tracker_location_holds_last_write, c19_tracker_copy_faithful, c19_tracker_independent_of_stale, c19_tracker_life_keeps_wf; tie tags 1950-1953 (real FileTracker lives, state compared after every call). "
@@ -215,7 +216,8 @@ CHECKS = {
         "against stand-in processes following the model's world (virtual schedules) and exhaustive fault injection with forked workers — 3 failure modes (SIGKILL, os._exit(3), raise) x "
         "3 crash points x every worker on all six stages (+ the nested transposition) — observing exception, exit codes, listings after all descendants exit, JSON/HDF5 keys, log text "
         "and whether the next stage accepts what is left.",
-   note="c14_abnormal_codes needs exit_arg_ok (-2^31 <= k < 2^31: os._exit(2**31) raises OverflowError and exits 1) and terminating_signal (Model/ExitCode.v, checked with all 64 signals); failure points inside `finally`: c14_failure_in_finally_after_success, c14_hdf5_failure_effects "
+   note="A failure of the body AND a failure inside `finally` are both modelled (run_mapping c bf ff; propagated : ExNone | ExBody p | ExFin p ctx; fail points PLogFile, PReadUns, PJson, PHdf5): c14_body_and_finally_failure, c14_propagated_exception, c14_worker_failure_and_finally_failure, "
+        "c14_log_written_after_worker_failure_refuted (known finding F34: a failing worker with log_path a directory: no log is written); the theorems about a failing body carry fin_quiet (the finally writes succeed); 11 real scenarios incl. the exception's __context__ chain; c14_raises_means_exception (SystemExit / KeyboardInterrupt are not `Exception`: tie 1407). c14_abnormal_codes needs exit_arg_ok (-2^31 <= k < 2^31: os._exit(2**31) raises OverflowError and exits 1) and terminating_signal (Model/ExitCode.v, checked with all 64 signals); failure points inside `finally`: c14_failure_in_finally_after_success, c14_hdf5_failure_effects "
         "(an unwritable HDF5 path raises after the success message: no worker failed, so outside the property's antecedent; observed). exit codes are modelled mod 256 (c14_abnormal_codes, c14_exit_256_refuted: os._exit(256) is invisible to the parent; tie tag 1406 on real forked workers); c14_failed_run_leaves_query_untouched, c14_early_failure_no_obsm; "
         "c14_failed_trace_has_property and c14_no_complete_output are finite checks GIVEN the transcription of the stages in Model/Pool.v / RunEffects.v (said so in their comments); completed_parents of the selection scheduler is observed through the frame's locals. "
         "Partial by nature: the OS, multiprocessing and the stage code's conformance to the models are validated by controlled runs, not proved. A hanging worker, a dying Manager process and a crash of the parent are not modelled. The clean-up race of the finally blocks (siblings "
@@ -226,7 +228,7 @@ CHECKS = {
         "c15_roundtrip_without_uniform_flags_refuted (necessity), c15_csv_rows, c15_four_decimals (+ c15_csv_confidence_four_decimals_refuted), "
         "c15_query_order, c15_tree_reconstructs. Tie: generated result blobs (depth 1-5, names with commas/quotes/newlines, 0..k runners-up, inferred "
         "levels, malformed stream) through the real blob_to_csv / blob_to_hdf5 / hdf5_to_blob / re_order_blob / to_str-from_str vs the extracted model.",
-   note="Columns are keyed by READABLE level name as in blob_to_df (c15_csv_rows under NoDup readable names; c15_csv_duplicate_readable_level_refuted: finding F31, fixed in /repo 9eca1ef); the two halves are connected: blob_to_csv_text = csv_file comments (header :: rows) with the confidence rendered by fmt4, "
+   note="c15_csv_text_of_blob_roundtrip is stated for blob_to_csv_text_auto: NoDup on the readable-name STRINGS, names_defined, `sticky` / `categ` derived inside the model by the substring tests of blob_to_df (tag 1556, byte for byte); a leading unquoted U+FEFF is excluded (read_csv strips it); UTF-8 locale assumed (the file is opened with the locale's encoding). Columns are keyed by READABLE level name as in blob_to_df (c15_csv_rows under NoDup readable names; c15_csv_duplicate_readable_level_refuted: finding F31, fixed in /repo 9eca1ef); the two halves are connected: blob_to_csv_text = csv_file comments (header :: rows) with the confidence rendered by fmt4, "
         "c15_csv_text_of_blob_roundtrip, c15_fmt4_rat_text_is_percent_4f, c15_csv_confidence_text_reads_four_decimals, c15_csv_row_text_starts_nonblank (pandas looks back into its buffer only on rows starting with a blank: F32), negative values in c15_fmt4_digits_roundtrip; tag 1555 compares the whole file byte for byte; "
         "NUL and non-scalar code points excluded. CSV text and %.4f are modelled and proved (Model/CsvText.v: Python 3.12 csv.writer as pandas calls it, the pandas C tokenizer state by state, comment='#'): c15_csv_text_roundtrip, c15_csv_text_injective, c15_csv_comment_lines_safe, "
         "c15_dyadic_is_the_value, c15_fmt4_nearest, c15_fmt4_ties_even, c15_fmt4_monotone, c15_fmt4_unit_interval, c15_fmt4_digits_roundtrip; refuted with witnesses: c15_csv_hash_cell_id_row_vanishes_refuted, c15_csv_hash_in_name_truncates_row_refuted (F20), "
